@@ -2462,6 +2462,7 @@ impl<Alloc: BrotliAlloc> BrotliEncoderStateStruct<Alloc> {
                     | ((self.storage_.slice()[(storage_ix >> 3) + 1] as u16) << 8);
                 self.last_bytes_bits_ = (storage_ix & 7u32 as usize) as u8;
             }
+            self.last_flush_pos_ = self.input_pos_;
             self.update_last_processed_pos();
             // *output = &mut s.storage_.slice_mut();
             self.next_out_ = NextOut::DynamicStorage(0); // this always returns that
